@@ -161,11 +161,16 @@ impl Span {
 
         #[cfg(feature = "enable")]
         {
-            let token = parents
+            let token: CollectToken = parents
                 .into_iter()
                 .filter_map(|span| span.inner.as_ref())
                 .flat_map(|inner| inner.issue_collect_token())
                 .collect();
+            // A span derived only from no-op spans belongs to no trace: it is a no-op span itself,
+            // as with `enter_with_parent`.
+            if token.is_empty() {
+                return Self::noop();
+            }
             Self::new(token, name, None)
         }
     }
